@@ -75,6 +75,7 @@ stop := http.S.serve(
   http.S.get("/echo", {|req| http.Response.new(body: req.headers.keys.S, headers: {"X-Seen": req.headers.keys.len.S, "X-%s": "1"})}),
   http.S.post("/json", {|req| JSON.dec(req.body).keys.S}),
   http.S.get("/env", {|req| "hk := 1; hv_%s := 2".evalEnv.keys}),
+  http.S.get("/g", {|req| ga%s; gb%s; "ok"}),
   http.S.get("/q", {|req| [req.queries.keys, req.queries.items.len, {|a, b, c, d, e, f, g, h, i, j| \\0.len}(1, 2, 3, 4, 5, 6, 7, 8, 9, 10)].S}),
   background: true, url: ":@PORT@")
 """
@@ -94,11 +95,14 @@ def http_phase(rng, nreq, blocking=False):
             reqs.append({"method": "GET", "path": "/env", "headers": {}, "body": ""})
         else:
             reqs.append({"method": "GET", "path": f"/q?qk{t}x{i}=1&common=2", "headers": {}, "body": ""})
-    main = [f"m{t}x{i} := {i}; {{mk{t}x{i}: m{t}x{i}}}.keys; \"mk{t}x{i} := 1\".evalEnv.keys" for i in range(nreq)]
-    script = HTTP_SCRIPT % (t, t)
+    # quiet stretch: handlers only read variables of the global scope while the main script reassigns them (no new symbol on either side)
+    reqs += [{"method": "GET", "path": "/g", "headers": {}, "body": ""} for _ in range(nreq)]
+    main = [f"m{t}x{i} := {i}; {{mk{t}x{i}: m{t}x{i}}}.keys; \"mk{t}x{i} := 1\".evalEnv.keys" for i in range(nreq // 2)]
+    main += [f"ga{t} := ga{t} + 1; gb{t} := [ga{t}]; gc{t} := gb{t}.len" for _ in range(4 * nreq)]
+    script = HTTP_SCRIPT % (t, t, t, t)
     if blocking:          # Server.serve without background: the call never returns, handlers still run on goroutines of their own
         script = script.replace("stop := http.S.serve(", "http.S.serve(").replace("background: true, ", "")
-    return {"script": script, "requests": reqs, "main": main, "clients": 8, "blocking": blocking}
+    return {"script": script, "requests": reqs, "main": main, "pre": f"ga{t} := 0; gb{t} := []; gc{t} := 0", "clients": 8, "blocking": blocking}
 
 
 def top_frame(frames):
